@@ -5,9 +5,12 @@ import (
 	"errors"
 	"io"
 	"sync"
+	"sync/atomic"
 
 	"google.golang.org/grpc"
+	"google.golang.org/grpc/codes"
 	"google.golang.org/grpc/metadata"
+	"google.golang.org/grpc/status"
 	"google.golang.org/protobuf/proto"
 )
 
@@ -21,8 +24,9 @@ type ClientServerStream struct {
 
 	serverSend chan any
 	clientSend chan any
-	closeSend  sync.Once  // clientSend is closed by the first CloseSend only
-	trailerM   sync.Mutex // guards trailer, which may be read (after a context cancellation) while the handler is still running
+	closeSend  sync.Once   // clientSend is closed by the first CloseSend only
+	sendClosed atomic.Bool // set before clientSend is closed: a later SendMsg reports an error instead of sending on the closed channel
+	trailerM   sync.Mutex  // guards trailer, which may be read (after a context cancellation) while the handler is still running
 	trailer    metadata.MD
 	closed     context.CancelFunc
 	closeErrM  sync.Mutex // guards closeErr, which may be read (after a parent context cancellation) while Close is running
@@ -104,6 +108,7 @@ func (c *clientStream) Trailer() metadata.MD {
 func (c *clientStream) CloseSend() error {
 	// like a real client stream, closing the send direction again is not an error
 	c.closeSend.Do(func() {
+		c.sendClosed.Store(true)
 		close(c.clientSend)
 	})
 	return nil
@@ -114,6 +119,10 @@ func (c *clientStream) Context() context.Context {
 }
 
 func (c *clientStream) SendMsg(m any) error {
+	if c.sendClosed.Load() {
+		// like a real client stream; sending on the closed channel would panic
+		return status.Error(codes.Internal, "SendMsg called after CloseSend")
+	}
 	m = copyOfMessage(m)
 	select {
 	case <-c.ctx.Done():
